@@ -156,7 +156,7 @@ BindArgs(m, ci, names, callee) ==   \* -> [m, callee] or a finished machine in m
        IN IF cf.stk = << >> THEN [m |-> Panic(m, "fcall-arg-underflow"), callee |-> << >>]   \* stack.pop().unwrap()
           ELSE LET a == Peek(cf, 1)
                    m2 == [m EXCEPT !.fr[ci] = Drop(cf, 1)]
-               IN IF Head(names) \in Reserved
+               IN IF Head(names) \in Reserved \/ Head(names) = N_env
                     THEN [m |-> [m2 EXCEPT !.res = [k |-> "fail", p |-> a.p, via |-> ViaOf(m2.fr), at |-> AtOf(m2)]], callee |-> << >>]
                     ELSE BindArgs(m2, ci, Tail(names),
                                   [callee EXCEPT !.syms = SymAdd(@, Head(names), a.v, a.p)])
@@ -277,9 +277,10 @@ BuildArms(kinds, vals) ==      \* -> [k |-> "ok", arms] / [k |-> "bad"] / [k |->
                                            hi |-> IF hi.t = "int" THEN << hi.i >> ELSE << >>] >> \o rest.arms]
     ELSE LET x == vals[1]
              rest == BuildArms(Tail(kinds), SubSeq(vals, 2, Len(vals)))
-         IN IF ~IsCPrim(x) THEN [k |-> "unm"]
+         IN IF ~IsCPrim(x) /\ x.t # "con" THEN [k |-> "unm"]
             ELSE IF rest.k # "ok" THEN rest
-            ELSE [k |-> "ok", arms |-> << [t |-> "arm", a |-> "exact", v |-> x] >> \o rest.arms]
+            ELSE [k |-> "ok", arms |-> << IF x.t = "con" THEN [t |-> "arm", a |-> "sub", c |-> x]
+                                          ELSE [t |-> "arm", a |-> "exact", v |-> x] >> \o rest.arms]
 
 ExecOp(m, f, o) ==   \* f: top frame with ptr already advanced to o
   LET p == o.p
